@@ -309,6 +309,11 @@ def cases(sh):
         t = sh.type_(sh.type1(sh.t2_name("a")), sh.type1(sh.t2_name("b")))
         with_field(t[0][2]["type_choices"][pos], comments_after_type=cm(" after %d" % pos))
         add("Type 2 choices, comments_after_type on #%d" % pos, t)
+        # a comment without text (`;` alone, or followed by blanks only) is still a comment: it runs to the end of its line
+        for label, txt in (("empty", ""), ("blank", "  ")):
+            t = sh.type_(sh.type1(sh.t2_name("a")), sh.type1(sh.t2_name("b")))
+            with_field(t[0][2]["type_choices"][pos], comments_after_type=cm(txt))
+            add("Type 2 choices, %s comments_after_type on #%d" % (label, pos), t)
     return C
 
 
